@@ -28,6 +28,8 @@ ZAof(id, px, py) ==
   LET bits == 8 * Len(id)
   IN S3!Hash(<<bits \div 256, bits % 256>> \o id \o ZBytes \o px \o py)
 IdOK(id) == Len(id) < 8192
+\* id_zeros: the id is that many zero bytes (lengths far beyond the limit are carried as a count)
+IdOKev(ev) == IF "id_zeros" \in DOMAIN ev THEN ev.id_zeros < 8192 ELSE IdOK(ev.id)
 Eof(za, msg) == S3!Hash(za \o msg)
 
 InsSame(ev, ins) == ev.ins_after = ins
@@ -110,8 +112,8 @@ Expect(s, ev) ==
                           ELSE IF g.kind = "err" THEN "genkey: reader failure mishandled"
                           ELSE IF ~okc THEN "genkey: bytes consumed / rejection rule" ELSE "genkey: key or public point"]
     [] ev.op = "sm2.za" ->
-         LET okE == (ev.err # "") <=> ~IdOK(ev.id)
-             okV == IdOK(ev.id) => ev.za = ZAof(ev.id, ev.pubx, ev.puby)
+         LET okE == (ev.err # "") <=> ~IdOKev(ev)
+             okV == IdOKev(ev) => ev.za = ZAof(ev.id, ev.pubx, ev.puby)
          IN [st |-> s, ok |-> ev.panic = "" /\ okE /\ okV /\ InsSame(ev, <<ev.id, ev.pubx, ev.puby>>),
              why |-> IF ~okE THEN "za: id length limit" ELSE "za: value"]
     [] ev.op = "sm2.sign" ->
@@ -123,7 +125,7 @@ Expect(s, ev) ==
                 IN [st |-> s, ok |-> ev.panic = "" /\ SignOK(ev, e) /\ InsSame(ev, <<ev.za, ev.msg>>),
                     why |-> "signza: " \o SignWhy(ev, e)]
            [] ev.kind = "id" ->
-                IF ~IdOK(ev.id)
+                IF ~IdOKev(ev)
                 THEN [st |-> s, ok |-> ev.panic = "" /\ ev.err # "" /\ ev.nil_out /\ R!Delivered(ev.reads) = 0,
                       why |-> "signid: id length limit"]
                 ELSE LET e == Eof(ZAof(ev.id, ev.pubx, ev.puby), ev.msg)
@@ -161,7 +163,7 @@ Expect(s, ev) ==
                 [st |-> s, ok |-> VerifyOK(ev, Eof(ev.za, ev.msg)) /\ InsSame(ev, <<ev.pubx, ev.puby, ev.r, ev.s, ev.za, ev.msg>>),
                  why |-> IF ev.panic # "" THEN "verifyza: panic" ELSE "verifyza: verdict"]
            [] ev.kind = "id" ->
-                IF ~IdOK(ev.id)
+                IF ~IdOKev(ev)
                 THEN [st |-> s, ok |-> ev.panic = "" /\ ~ev.ok, why |-> "verifyid: id length limit"]
                 ELSE LET e == Eof(ZAof(ev.id, ev.pubx, ev.puby), ev.msg)
                          \* signatures produced by another implementation (OpenSSL) double as a
